@@ -451,3 +451,21 @@ Proof.
   - unfold do_subscribe_ls. cbn [snd o_res]. intros Hi. injection Hi as <-.
     unfold for_inst, items_of. cbn [o_events o_ls map app filter fst snd]. rewrite N.eqb_refl. cbn. lia.
 Qed.
+
+(* ---- quiescent points: nothing in the api channel, every serve loop idle, every owned channel drained ---- *)
+Definition quiescent (w : cw) : Prop :=
+  c_api w = [] /\ (forall sn, c_task w sn = TIdle) /\ (forall i sn, c_owner w i = Some sn -> c_subq w i = []).
+
+Theorem conc_quiescent es :
+  quiescent (crun es) ->
+  c_served (crun es) = c_posted (crun es) /\
+  c_core (crun es) = final init (map snd (c_posted (crun es))) /\
+  (forall sn, ans_proj (c_wire (crun es) sn) = mine sn (sres init (c_posted (crun es)))) /\
+  (forall i sn, c_owner (crun es) i = Some sn ->
+     evs_of (item_proj i (c_wire (crun es) sn)) = stream i init (map snd (c_posted (crun es)))).
+Proof.
+  intros (Hapi & Htask & Hq). destruct (conc_serializes es) as (Hf & Hc). rewrite Hapi, app_nil_r in Hf.
+  rewrite <- Hf. split; [reflexivity|]. split; [exact Hc|]. split.
+  - intros sn. pose proof (conc_answers es sn) as H. rewrite Htask in H. cbn [done_of] in H. now rewrite app_nil_r in H.
+  - intros i sn Ho. exact (conc_drained es i sn Ho (Hq i sn Ho)).
+Qed.
